@@ -12,6 +12,7 @@ import (
 	"github.com/formancehq/ledger/internal/bus"
 	"github.com/formancehq/ledger/internal/engine/utils/batching"
 	"github.com/formancehq/ledger/internal/machine/vm"
+	"github.com/formancehq/ledger/internal/verifhook"
 	"github.com/formancehq/stack/libs/go-libs/collectionutils"
 	"github.com/formancehq/stack/libs/go-libs/metadata"
 	"github.com/pkg/errors"
@@ -86,6 +87,7 @@ func (commander *Commander) exec(ctx context.Context, parameters Parameters, scr
 				return nil, nil, NewErrConflict()
 			}
 			defer commander.referencer.release(referenceTxReference, script.Reference)
+			verifhook.Yield(ctx, "ref.taken")
 
 			_, err := commander.store.GetTransactionByReference(ctx, script.Reference)
 			if err == nil {
@@ -94,6 +96,7 @@ func (commander *Commander) exec(ctx context.Context, parameters Parameters, scr
 			if err != nil && !storageerrors.IsNotFoundError(err) {
 				return nil, nil, err
 			}
+			verifhook.Yield(ctx, "ref.checked")
 		}
 
 		program, err := commander.compiler.Compile(script.Plain)
@@ -112,6 +115,7 @@ func (commander *Commander) exec(ctx context.Context, parameters Parameters, scr
 			return nil, nil, NewErrCompilationFailed(err)
 		}
 
+		verifhook.Yield(ctx, "resolved")
 		worldFilter := collectionutils.FilterNot(collectionutils.FilterEq("world"))
 		lockAccounts := Accounts{
 			Read:  collectionutils.Filter(involvedAccounts, worldFilter),
@@ -122,6 +126,7 @@ func (commander *Commander) exec(ctx context.Context, parameters Parameters, scr
 		if err != nil {
 			return nil, nil, errors.Wrap(err, "locking accounts for tx processing")
 		}
+		verifhook.Yield(ctx, "locked")
 		unlock(ctx)
 
 		err = m.ResolveBalances(ctx, commander.store)
@@ -137,6 +142,7 @@ func (commander *Commander) exec(ctx context.Context, parameters Parameters, scr
 		if len(result.Postings) == 0 {
 			return nil, nil, NewErrNoPostings()
 		}
+		verifhook.Yield(ctx, "ran")
 
 		tx := ledger.NewTransaction().
 			WithPostings(result.Postings...).
@@ -144,6 +150,7 @@ func (commander *Commander) exec(ctx context.Context, parameters Parameters, scr
 			WithDate(script.Timestamp).
 			WithID(commander.nextTXID()).
 			WithReference(script.Reference)
+		verifhook.Yield(ctx, "txid", "id", tx.ID)
 
 		log := logComputer(tx, result.AccountMetadata)
 		if parameters.IdempotencyKey != "" {
@@ -160,6 +167,7 @@ func (commander *Commander) CreateTransaction(ctx context.Context, parameters Pa
 		return nil, err
 	}
 
+	verifhook.Yield(ctx, "publish")
 	commander.monitor.CommittedTransactions(ctx, *log.Data.(ledger.NewTransactionLogPayload).Transaction, log.Data.(ledger.NewTransactionLogPayload).AccountMetadata)
 
 	return log.Data.(ledger.NewTransactionLogPayload).Transaction, nil
@@ -194,6 +202,7 @@ func (commander *Commander) SaveMeta(ctx context.Context, parameters Parameters,
 		default:
 			panic(errors.Errorf("unknown target type '%s'", targetType))
 		}
+		verifhook.Yield(ctx, "meta.ready")
 
 		return executionContext.AppendLog(ctx, log)
 	})
@@ -201,6 +210,7 @@ func (commander *Commander) SaveMeta(ctx context.Context, parameters Parameters,
 		return err
 	}
 
+	verifhook.Yield(ctx, "publish")
 	commander.monitor.SavedMetadata(ctx, targetType, fmt.Sprint(targetID), m)
 	return nil
 }
@@ -211,6 +221,7 @@ func (commander *Commander) RevertTransaction(ctx context.Context, parameters Pa
 		return nil, NewErrRevertTransactionOccurring()
 	}
 	defer commander.referencer.release(referenceReverts, id)
+	verifhook.Yield(ctx, "rev.taken")
 
 	transactionToRevert, err := commander.store.GetTransaction(ctx, id)
 	if err != nil {
@@ -223,6 +234,7 @@ func (commander *Commander) RevertTransaction(ctx context.Context, parameters Pa
 		return nil, NewErrRevertTransactionAlreadyReverted()
 	}
 
+	verifhook.Yield(ctx, "rev.read")
 	rt := transactionToRevert.Reverse()
 	rt.Metadata = ledger.MarkReverts(metadata.Metadata{}, transactionToRevert.ID)
 
@@ -238,6 +250,7 @@ func (commander *Commander) RevertTransaction(ctx context.Context, parameters Pa
 		return nil, err
 	}
 
+	verifhook.Yield(ctx, "publish")
 	commander.monitor.RevertedTransaction(ctx, log.Data.(ledger.RevertedTransactionLogPayload).RevertTransaction, transactionToRevert)
 
 	return log.Data.(ledger.RevertedTransactionLogPayload).RevertTransaction, nil
@@ -293,6 +306,7 @@ func (commander *Commander) DeleteMetadata(ctx context.Context, parameters Param
 		default:
 			panic(errors.Errorf("unknown target type '%s'", targetType))
 		}
+		verifhook.Yield(ctx, "meta.ready")
 
 		return executionContext.AppendLog(ctx, log)
 	})
@@ -300,6 +314,7 @@ func (commander *Commander) DeleteMetadata(ctx context.Context, parameters Param
 		return err
 	}
 
+	verifhook.Yield(ctx, "publish")
 	commander.monitor.DeletedMetadata(ctx, targetType, targetID, key)
 
 	return nil
